@@ -3,6 +3,7 @@ package main
 import (
 	"bytes"
 	"fmt"
+	"math/rand/v2"
 	"os"
 	"path/filepath"
 	"regexp"
@@ -217,6 +218,16 @@ func buildInputs(t *vk.T) []*input {
 			nc++
 		}
 	}
+	// small broken documents (tens of Read calls): every Read of them is a cancel point (see main.go), so a
+	// defect tied to one particular Read of the repair path - the one that loads a cross-reference stream,
+	// the one that hits EOF while buffering a bogus xref object - is met deterministically
+	addRepair("classic-n=12-lf", classicDoc(12, "\n"), nil)
+	addRepair("classic-n=40-crlf", classicDoc(40, "\r\n"), nil)
+	for i, xs := range smallXRefStreamDocs() {
+		for k, v := range breakXRefStream(xs) {
+			ins = append(ins, &input{Name: fmt.Sprintf("repair/%s/xrefstm-small-%d", k, i), Class: "repair", Data: v})
+		}
+	}
 	if !t.Quick() {
 		rrng := t.RNG("repair-gen")
 		for i := 0; i < 8; i++ {
@@ -224,4 +235,51 @@ func buildInputs(t *vk.T) []*input {
 		}
 	}
 	return ins
+}
+
+// smallXRefStreamDocs: two small pdfgen documents written with a cross-reference stream (without and
+// with object streams).
+func smallXRefStreamDocs() [][]byte {
+	var out [][]byte
+	for _, objstm := range []bool{false, true} {
+		spec := pdfgen.RandomSpec(rand.New(rand.NewPCG(77, 78)), 6)
+		spec.Pages = 2
+		spec.Updates = 0
+		spec.Write.XRef = pdfgen.XRefStream
+		spec.Write.ObjStm = objstm
+		out = append(out, pdfgen.Build(spec).Bytes)
+	}
+	return out
+}
+
+// breakXRefStream damages a document whose last cross-reference section is a stream in the ways pdfcpu
+// repairs by rebuilding the table from the file: startxref pointing elsewhere, the stream data cut short.
+func breakXRefStream(b []byte) map[string][]byte {
+	ms := reStartXRef.FindAllSubmatchIndex(b, -1)
+	if len(ms) == 0 {
+		return nil
+	}
+	m := ms[len(ms)-1]
+	off, err := strconv.Atoi(string(b[m[2]:m[3]]))
+	if err != nil || off <= 0 || off >= len(b) {
+		return nil
+	}
+	out := map[string][]byte{}
+	v := append([]byte(nil), b[:m[2]]...)
+	v = append(v, []byte(fmt.Sprintf("%0*d", m[3]-m[2], 17))...)
+	v = append(v, b[m[3]:]...)
+	out["startxref-wrong"] = v
+	// cut the encoded data of the xref stream short (keep /Length as it is): "corrupt xref stream"
+	if i := bytes.Index(b[off:], []byte("stream")); i >= 0 {
+		d := off + i + len("stream")
+		for d < len(b) && (b[d] == '\r' || b[d] == '\n') {
+			d++
+		}
+		if e := bytes.Index(b[d:], []byte("endstream")); e > 8 {
+			v = append([]byte(nil), b[:d+e/2]...)
+			v = append(v, b[d+e:]...)
+			out["xrefstream-short"] = v
+		}
+	}
+	return out
 }
